@@ -24,7 +24,7 @@ def prepare(scratch_dir):
     dst = os.path.join(scratch_dir, 'kani-repo')
     if os.path.exists(dst):
         return dst
-    subprocess.run(['rsync', '-a', '--exclude', 'target', '--exclude', '.git', '/repo/', dst + '/'], check=True)
+    subprocess.run(['rsync', '-a', '--exclude', 'target', '--exclude', '.git', os.environ.get('VERIF_DEV_REPO', '/repo').rstrip('/') + '/', dst + '/'], check=True)  # override: developer tools only
     for mod, host, path, src, decl in INJECT:
         os.makedirs(os.path.dirname(os.path.join(dst, path)), exist_ok=True)
         shutil.copy(os.path.join(VERIF, 'kani', src), os.path.join(dst, path))
